@@ -13,8 +13,8 @@ hooks = json.load(open(hooks_path)) if os.path.exists(hooks_path) else {}
 
 checks = []
 for pid in ALL:
-    if pid not in SPECS:
-        continue
+    if pid not in SPECS or not SPECS[pid]["theorems"]:
+        continue  # a check without a pinned theorem is not a proof-level claim: not listed until the proofs land
     s = SPECS[pid]
     checks.append(dict(
         property_id=pid,
@@ -48,7 +48,7 @@ manifest = dict(
     checks=checks,
     notes="See DESIGN.md. Properties not yet claimed are listed under not_applicable with the reason 'not built yet' until their check lands.",
     not_applicable=[dict(property_id=p, reason=na.get(p, "check not built yet in this round (planned: see DESIGN.md section 10); not a claim that the technique cannot apply"))
-                    for p in ALL if p not in SPECS],
+                    for p in ALL if p not in SPECS or not SPECS[p]["theorems"]],
 )
 with open(os.path.join(ROOT, "MANIFEST.json"), "w") as f:
     json.dump(manifest, f, indent=1)
